@@ -216,6 +216,13 @@ def unify_ty(pat, con, params, out):
             if not (p2.startswith(pre) and c2.startswith(pre)):
                 return False
             return unify_ty(p2[len(pre):], c2[len(pre):], params, out)
+    if p2.startswith("(") and p2.endswith(")") and c2.startswith("(") and c2.endswith(")"):
+        pl, cl = _split_top(p2[1:-1]), _split_top(c2[1:-1])
+        return len(pl) == len(cl) and all(unify_ty(x, y, params, out) for x, y in zip(pl, cl))
+    if p2.startswith("[") and p2.endswith("]") and c2.startswith("[") and c2.endswith("]") and "; " in p2 and "; " in c2:
+        pe, pn = p2[1:-1].rsplit("; ", 1)
+        ce, cn = c2[1:-1].rsplit("; ", 1)
+        return unify_ty(pe, ce, params, out) and unify_ty(pn, cn, params, out)
     ph, _, pa = p2.partition("<")
     ch, _, ca = c2.partition("<")
     if ph != ch:
